@@ -167,6 +167,7 @@ def register(R: Registry):
           requires=[("handle-in-range", handle_in_range)],
           ensures=[("true-iff-two-distinct-rows-name-this-id-as-parent", furc_two_rows),
                    ("true-iff-more-than-one-row-names-this-id-as-parent", furc_count)],
+          returns="bool",  # used through this contract at call sites (Tree.Node.branch on trees of any size)
           options=dict(OPTS, hints={"post/true-iff-two-distinct-rows-name-this-id-as-parent": furc_hint}))
 
     # ================================================================ Node.is_tip
@@ -179,6 +180,7 @@ def register(R: Registry):
           setup=lambda S: dict(self=node_obj(S, sym_tree(S, "t", frozen=True))),
           requires=[("handle-in-range", handle_in_range)],
           ensures=[("true-iff-no-row-names-this-id-as-parent", tip_post)],
+          returns="bool",
           options=dict(OPTS))
 
     # ================================================================ Tree.get_tips
@@ -531,7 +533,7 @@ def register(R: Registry):
           variants=nb_variants,
           ensures=[("the-branch-through-the-node-root-or-furcation-to-furcation-or-tip-pass-through-inside", nb_post)],
           notes="fixed concrete topologies (every labelled rooted tree of 1-4 nodes in any numbering, and 8 larger shapes; every non-furcation node); the is_furcation / is_tip / parent / children calls are inlined from the current source",
-          options=dict(OPTS))
+          options=dict(OPTS, inline_calls=[":Node.is_furcation", ":Node.is_tip"]))
 
 
 # ===========================================================================================================================
@@ -1367,6 +1369,121 @@ def register_whole(R):
                               "post/every-branch-starts-at-the-root-or-where-another-branch-ends": gbw_then_post("every-branch-starts-at-the-root-or-where-another-branch-ends", kind="ends")}),
           notes="whole function, trees of any size (traverse client rule with (list of branches, chain) leave values; loop of the callback cut at an invariant); the input tree is frozen")
 
+
+    # ================================================================ Tree.Node.branch as a whole (trees of any size)
+    # For a node x that is not a furcation the result is THE branch that holds the edge into x (for a one-child root: the branch it
+    # starts): it contains x, consecutive entries are (parent, child), it starts at the root or a furcation, ends at a furcation or a
+    # tip and has only pass-through nodes in between.  (A furcation ends one branch and starts others; the property does not say which
+    # of them `branch()` reports.)  Ghost: `depth` (every node reaches the root) and `ht8` (a height witness: finite trees have one).
+    ht8 = z3.Function("ht8", I_, I_)
+
+    def nbw_setup(S):
+        t = wf_tree8(S)
+        n, P = nof(t), col(t, "pid").arr
+        x, i = S.int("x"), z3.Int(fresh_name("i"))
+        S.assume(z3.And(x.z >= 0, x.z < n))
+        S.assume(z3.ForAll([i], z3.Implies(z3.And(i >= 0, i < n), ht8(i) >= 0), patterns=[ht8(i)]))
+        S.assume(z3.ForAll([i], z3.Implies(z3.And(i > 0, i < n), ht8(sel(P, i)) > ht8(i)), patterns=[ht8(sel(P, i))]))
+        return dict(self=node_obj(S, t, idx=x))
+
+    def nbw_vocab(E, v, name="ns"):
+        from pyvc.ext_C07 import NodeList
+
+        s = v["self"]
+        t = s.fields["attach"]
+        ns = v.get(name)
+        x = to_z3(s.fields["idx"], "int")
+        if isinstance(ns, PList) and ns.items is not None and all(isinstance(h, Obj) and h.fields.get("attach") is t and "idx" in h.fields for h in ns.items):
+            A = z3.K(I_, z3.IntVal(0))  # a concrete list of handles (before the loop promotes it)
+            for k, h in enumerate(ns.items):
+                A = z3.Store(A, k, to_z3(h.fields["idx"], "int"))
+            return t, col(t, "pid").arr, nof(t), x, A, z3.IntVal(len(ns.items))
+        if not (isinstance(ns, NodeList) and ns.attach is t and ns.items is None):
+            raise X.Unsupported("Tree.Node.branch: `ns` is not a list of node handles on the tree")
+        return t, col(t, "pid").arr, nof(t), x, ns.cols[0], zint(ns.n)
+
+    def nbw_inv0(which):
+        def f(E, v, o):
+            t, P, n, x, A, L = nbw_vocab(E, v)
+            j = z3.Int(fresh_name("j"))
+            if which == "starts-at-the-node":
+                return z3.And(L >= 1, sel(A, 0) == x)
+            if which == "nodes-in-range-one-level-up-per-step":
+                return z3.ForAll([j], z3.Implies(z3.And(0 <= j, j < L), z3.And(0 <= sel(A, j), sel(A, j) < n, d8(sel(A, j)) == d8(x) - j)), patterns=[sel(A, j)])
+            if which == "climbs-from-child-to-parent-through-nodes-that-are-no-furcations":
+                return z3.ForAll([j], z3.Implies(z3.And(0 <= j, j < L - 1), z3.And(sel(P, sel(A, j)) == sel(A, j + 1), z3.Not(two_rows(t, sel(A, j))))), patterns=[sel(A, j)])
+            raise KeyError(which)
+
+        return f
+
+    def nbw_inv1(which):
+        def f(E, v, o):
+            t, P, n, x, B, M = nbw_vocab(E, v)
+            j, r = z3.Int(fresh_name("j")), z3.Int(fresh_name("r"))
+            b0 = sel(B, 0)
+            dx = d8(x) - d8(b0)
+            if which == "not-empty":
+                return M >= 1
+            if which == "nodes-in-range-one-level-down-per-step":
+                return z3.ForAll([j], z3.Implies(z3.And(0 <= j, j < M), z3.And(0 <= sel(B, j), sel(B, j) < n, d8(sel(B, j)) == d8(b0) + j)), patterns=[sel(B, j)])
+            if which == "descends-from-parent-to-child":
+                return z3.ForAll([j], z3.Implies(z3.And(1 <= j, j < M), sel(P, sel(B, j)) == sel(B, j - 1)), patterns=[sel(B, j)])
+            if which == "nodes-in-between-are-no-furcations":
+                return z3.ForAll([j], z3.Implies(z3.And(1 <= j, j < M - 1), z3.Not(two_rows(t, sel(B, j)))), patterns=[sel(B, j)])
+            if which == "starts-at-the-root-or-a-furcation":
+                return z3.Or(b0 == 0, two_rows(t, b0))
+            if which == "holds-the-node-below-the-start-unless-it-is-the-root":
+                return z3.And(0 <= dx, dx < M, sel(B, dx) == x, z3.Implies(x != 0, dx >= 1))
+            raise KeyError(which)
+
+        return f
+
+    def nbw_post(which):
+        def f(E, v, o):
+            from swcgeom.core.tree import Tree
+
+            s, res = o["self"], v["result"]
+            t = s.fields["attach"]
+            if not (isinstance(res, Obj) and res.cls is Tree.Branch and isinstance(res.fields.get("idx"), SArr)):
+                return False
+            if which == "a-branch-on-this-tree":
+                return res.fields.get("attach") is v["self"].fields["attach"] and res.fields.get("names") is t.fields["names"] and res.fields["idx"].uid not in E.entry_uids
+            P, n, x = col(t, "pid").arr, nof(t), to_z3(s.fields["idx"], "int")
+            B, M = res.fields["idx"].arr, res.fields["idx"].nz()
+            j, r = z3.Int(fresh_name("j")), z3.Int(fresh_name("r"))
+            dx = d8(x) - d8(sel(B, 0))
+            if which == "holds-the-node-below-its-first-entry-unless-the-node-is-the-root":
+                return z3.And(M >= 1, 0 <= dx, dx < M, sel(B, dx) == x, z3.Implies(x != 0, dx >= 1))
+            if which == "consecutive-entries-are-parent-and-child":
+                return z3.ForAll([j], z3.Implies(z3.And(0 <= j, j < M), z3.And(0 <= sel(B, j), sel(B, j) < n, z3.Implies(j >= 1, sel(P, sel(B, j)) == sel(B, j - 1)))))
+            if which == "starts-at-the-root-or-a-furcation":
+                return z3.Or(sel(B, 0) == 0, two_rows(t, sel(B, 0)))
+            if which == "ends-at-a-furcation-or-a-tip":
+                return z3.Or(two_rows(t, sel(B, M - 1)), no_child(t, sel(B, M - 1)))
+            if which == "interior-nodes-are-pass-through":  # the only row that names an interior entry as parent is the next entry
+                return z3.ForAll([j, r], z3.Implies(z3.And(1 <= j, j < M - 1, 0 <= r, r < n, sel(P, r) == sel(B, j)), r == sel(B, j + 1)))
+            if which == "has-an-edge-unless-the-node-is-a-childless-root":
+                return z3.Or(M >= 2, z3.And(x == 0, no_child(t, x)))
+            raise KeyError(which)
+
+        return f
+
+    NBW0 = ["starts-at-the-node", "nodes-in-range-one-level-up-per-step", "climbs-from-child-to-parent-through-nodes-that-are-no-furcations"]
+    NBW1 = ["not-empty", "nodes-in-range-one-level-down-per-step", "descends-from-parent-to-child", "nodes-in-between-are-no-furcations", "starts-at-the-root-or-a-furcation",
+            "holds-the-node-below-the-start-unless-it-is-the-root"]
+    NBWP = ["a-branch-on-this-tree", "holds-the-node-below-its-first-entry-unless-the-node-is-the-root", "consecutive-entries-are-parent-and-child", "starts-at-the-root-or-a-furcation",
+            "ends-at-a-furcation-or-a-tip", "interior-nodes-are-pass-through", "has-an-edge-unless-the-node-is-a-childless-root"]
+    from pyvc.ext_C07 import node_handles
+
+    R.add(f"{TREE}:Tree.Node.branch", prop="C08", setup=nbw_setup,
+          requires=[("the-node-is-not-a-furcation", lambda E, v, o: z3.Not(two_rows(v["self"].fields["attach"], to_z3(v["self"].fields["idx"], "int"))))],
+          ensures=[(w, nbw_post(w)) for w in NBWP],
+          loops={0: dict(invariant=[(w, nbw_inv0(w)) for w in NBW0], types={"ns": node_handles}, decreases="depth(ns[len_(ns) - 1].idx)"),
+                 1: dict(invariant=[(w, nbw_inv1(w)) for w in NBW1], types={"ns": node_handles}, decreases="ht8(ns[len_(ns) - 1].idx)")},
+          ghost_funcs=dict(depth=(["int"], "int"), ht8=(["int"], "int")),
+          options=dict(OPTS),
+          notes="whole function, trees of any size (ids = positions, node 0 the root, parents need not come first); Node.is_furcation / Node.is_tip are used through their contracts; the input tree is frozen")
+
     # ================================================================ BranchTree.get_origin_node_branches / get_origin_branches
     # "[the branch tree] remembers each original branch's points": the two read accessors of the `branches` registry (start node -> the
     # original branches that start there).  The Branch objects are opaque references here.
@@ -1546,7 +1663,8 @@ def register_branch_tree(R):
                     out += [to_z3(bc[c].items[j], bc[c].kind) == to_z3(orig[c].items[seq[j]], bc[c].kind) for c in bc if c not in ("id", "pid") for j in range(len(seq))]
                 return z3.And(*out + [z3.BoolVal(True)])
             if which == "remembered-branches-are-detached-copies":
-                return all(b.fields["attach"] is not t and all(a.root().uid not in E.entry_uids for a in b.fields["attach"].fields["ndata"].items.values()) for _, _, b in rem)
+                return all(b.fields["attach"] is not v[tree] and b.fields["attach"].uid not in E.entry_uids
+                           and all(a.root().uid not in E.entry_uids for a in b.fields["attach"].fields["ndata"].items.values()) for _, _, b in rem)
             raise KeyError(which)
 
         return f
@@ -1579,6 +1697,85 @@ def register_branch_tree(R):
 
     R.add(f"{TT}:ToBranchTree.__call__", prop="C08", variants={nm: tb_setup(p) for nm, p in FIXED_SHAPES.items()},
           ensures=[(w, bt_post(w, "x")) for w in BTP], notes=NOTE, options=dict(OPTS, inline_calls=INLINE8))
+
+    # ================================================================ ToLongestPath.__call__ on fixed topologies
+    # "There is exactly one root-to-tip path per tip": the transform returns one of these paths, one of maximal length, with the original points.
+    def root_paths(pids):
+        T8 = Topo8(pids)
+        out = []
+        for tip in T8.tips():
+            q = [tip]
+            while pids[q[-1]] != -1:
+                q.append(pids[q[-1]])
+            out.append(q[::-1])
+        return out
+
+    def lp_setup(pids, detach):
+        def f(S):
+            from swcgeom.transforms.tree import ToLongestPath
+
+            return dict(self=S.obj(ToLongestPath, detach=detach), x=fixed_topology_tree(S, pids, tag=True))
+
+        return f
+
+    def lp_view(E, v, o):
+        """(tree, parent vector, original node sequence of the result, columns the result reads its points from, row of each entry) or None"""
+        from swcgeom.core.path import Path
+
+        t, res = o["x"], v["result"]
+        if not (isinstance(res, Obj) and issubclass(res.cls, Path) and isinstance(res.fields.get("attach"), Obj)):
+            return None
+        att, idx = res.fields["attach"], ints(res.fields.get("idx"))
+        nd = att.fields.get("ndata")
+        if idx is None or not isinstance(nd, PDict) or nd.items is None:
+            return None
+        tag = ints(nd.items.get("tag"))
+        if tag is None or any(not (0 <= a < len(tag)) for a in idx):
+            return None
+        return t, ints(col(t, "pid")), [tag[a] - 100 for a in idx], nd.items, idx, att
+
+    def path_len(E, t, seq):
+        X_, Y_, Z_ = (col(t, c).items for c in "xyz")
+        tot = z3.RealVal(0)
+        for a, b in zip(seq, seq[1:]):
+            d2 = sum((to_z3(c[b], "real") - to_z3(c[a], "real")) * (to_z3(c[b], "real") - to_z3(c[a], "real")) for c in (X_, Y_, Z_))
+            tot = tot + to_z3(E.sqrt(Sym(d2, "real"), nonneg_known=True), "real")
+        return tot
+
+    def lp_post(which):
+        def f(E, v, o):
+            vw = lp_view(E, v, o)
+            if vw is None:
+                return False
+            t, pids, seq, cols, idx, att = vw
+            orig = t.fields["ndata"].items
+            if which == "a-root-to-tip-path-of-the-tree":
+                return seq in root_paths(pids)
+            if which == "no-root-to-tip-path-is-longer":
+                if seq not in root_paths(pids):
+                    return False
+                mine = path_len(E, t, seq)
+                return z3.And(*[mine >= path_len(E, t, q) for q in root_paths(pids) if q != seq] + [z3.BoolVal(True)])
+            if which == "keeps-the-original-points":
+                if list(cols) != list(orig) or any(not (0 <= a < len(pids)) for a in seq):
+                    return False
+                return z3.And(*[to_z3(cols[c].items[a], cols[c].kind) == to_z3(orig[c].items[b], cols[c].kind) for c in cols if c not in ("id", "pid") for a, b in zip(idx, seq)] + [z3.BoolVal(True)])
+            if which == "detached-iff-asked":
+                det = o["self"].fields["detach"]
+                if det:
+                    return att is not v["x"] and att.uid not in E.entry_uids and all(a.root().uid not in E.entry_uids for a in cols.values())
+                return att is v["x"]
+            raise KeyError(which)
+
+        return f
+
+    LP_SHAPES = {nm: p for nm, p in FIXED_SHAPES.items() if len(Topo8(p).tips()) <= 3}
+    R.add(f"{TT}:ToLongestPath.__call__", prop="C08",
+          variants={f"detach={d}, {nm}": lp_setup(p, d) for nm, p in LP_SHAPES.items() for d in (True, False)},
+          ensures=[(w, lp_post(w)) for w in ("a-root-to-tip-path-of-the-tree", "no-root-to-tip-path-is-longer", "keeps-the-original-points", "detached-iff-asked")],
+          notes="fixed concrete topologies with at most three tips (coordinates symbolic, lengths over the reals: one ghost square root per segment); get_paths, the traversal, "
+                "Path.length, np.argmax (first maximum, decided by forking) and Path.detach are executed from their current source; the input tree is frozen",
+          options=dict(OPTS, inline_calls=INLINE8))
 
 
 def register(R):  # noqa: F811
